@@ -53,6 +53,7 @@ func jqStr(j *calendar.JieQi) string {
 }
 
 func runC03(w *W) {
+	perturbCache = true
 	if bad := r3SelfTest(); len(bad) > 0 {
 		panic("R3 self-test failed: " + fmt.Sprint(bad))
 	}
